@@ -140,9 +140,9 @@ func validVariants(f string) []string {
 }
 
 var badVariants = [][]string{
-	{"{ a", "query {", "}{", "{ a } }", "é"},                // syntax errors
+	{"{ a", "query {", "}{", "{ a } }", "é"},                              // syntax errors
 	{"{ nosuch }", "{ a { x } }", "{ a(arg: 1) }", "query($v: Int){ a }"}, // validation errors
-	{" ", "\n", "# only a comment"},                              // no operation at all (non-empty text)
+	{" ", "\n", "# only a comment"},                                       // no operation at all (non-empty text)
 }
 
 func newConc(rnd *rand.Rand, texts, valid []string, wrong []string, method string) *conc {
